@@ -16,6 +16,7 @@ import sympy as sp
 
 from bsa import cfg, nalg, sym
 from bsa.hir import Missing, callee, peel, place, pp, walk
+from rules import caps
 from rules import c01, c02
 from rules import ivp_model as M
 from rules import proto
@@ -252,6 +253,10 @@ def check_while_loops(F, run):
                 conts = [x for x in walk(w["body"], into_closures=False) if x.get("k") == "Continue"]
                 other = [x for x in walk(w["body"]) if x.get("k") in ("Assign", "AssignOp") and peel(x["l"]).get("k") == "Local" and peel(x["l"])["id"] == cnt["id"]]
                 ok = len(incs) == 1 and not conts and len(other) == 1
+            if not ok:
+                # the other bounded spellings (rules/caps.py): an up- or down-counter against an integer parameter (the number of start-up steps)
+                ok2, form, why = caps.bounded_by_cap(b, w)
+                ok = ok2
             run.check(ok, "R5.3", b["path"], "counter-loop", F.loc(b, w),
                       "`while %s` is not a counter loop (constant init, constant bound, one unconditional increment, no continue)" % pp(w["c"])[:40],
                       sample="%s: while %s" % (b["name"], pp(w["c"])[:40]))
